@@ -306,13 +306,14 @@ def parseMsgRawText : Nat → Nat → Bytes → NodeList
       let (start, stop) := match findHtmlTag txt 0 with
         | some (a, b) => (a, b)
         | none => (txt.length, txt.length)
-      let (out1, pos1) : NodeList × Nat :=
-        if start > 0 then (.cons (.rawText pos (txt.take start)) .nil, pos + start) else (.nil, pos)
-      let (out2, pos2) : NodeList × Nat :=
+      -- every piece keeps the position of the text it was cut from (/repo a9dace7)
+      let out1 : NodeList :=
+        if start > 0 then .cons (.rawText pos (txt.take start)) .nil else .nil
+      let out2 : NodeList :=
         if stop > start then
-          (.cons (.placeholder pos1 (.htmlTag pos1 ((txt.drop start).take (stop - start)))) .nil, pos1 + (stop - start))
-        else (.nil, pos1)
-      (out1.append out2).append (parseMsgRawText fuel pos2 (txt.drop stop))
+          .cons (.placeholder pos (.htmlTag pos ((txt.drop start).take (stop - start)))) .nil
+        else .nil
+      (out1.append out2).append (parseMsgRawText fuel pos (txt.drop stop))
 
 mutual
   /-- `placeholderize(parent)`; `none` = a failed type assertion (runtime panic) -/
